@@ -9,8 +9,10 @@ called, the stop flags of the per-worker results, and whether every thread ended
 * `one-at-a-time`  the caller's TestResult sees whole, well-shaped blocks only (C12's `mutex` and `shape`);
 * `delivered`      what each worker emitted reached the caller's result once and in that worker's order:
                    suite - the sections of thread `w+1` are exactly worker `w`'s own sequence (started workers all
-                   finish); stream - the events with route code `w` are a prefix of `w`'s events, all of them
-                   when `run()` returned normally, each with a timestamp; nothing from workers never started;
+                   finish); stream - the events with route code `w` are a prefix of `w`'s events (id, payload, tags and -
+                   if the emitter gave one - its own instant; for TestResult-API tests and for tests that call
+                   `result.status()` themselves), all of them when `run()` returned normally, and EVERY delivered event
+                   carries a time stamp; nothing from workers never started;
 * `complete`       on normal return every sub-suite was started, ran exactly once, has terminated, and the
                    caller's result never raised;
 * `broken-runner`  a sub-suite whose `run()` raises yields exactly one errored `broken-runner` test, others none
@@ -76,7 +78,7 @@ def cComplete (i : SInput) (t : STrace) : Bool :=
       && t.sink.all fun p => !p.2.2)
 
 def brokenFails (w : Nat) (t : STrace) : Nat :=
-  (t.sink.filter fun p => p.1 == (⟨w, .broken, .st .fail⟩ : SEv)).length
+  (t.sink.filter fun p => p.1 == brokenFail w).length
 
 /-- the event is thread `w+1` reporting the errored `broken-runner` test -/
 def isBrokenError (w : Nat) : Ev → Bool
